@@ -1,6 +1,6 @@
 (* C18 — property theorems (statements only; proofs are in C18/*.v) *)
 From Coq Require Import ZArith QArith List Bool Reals.
-From PPV Require Import Base.QN C18.Model C18.Proofs C18.Kappa C18.Zbus.
+From PPV Require Import Base.QN Base.QC C18.Model C18.Proofs C18.ChainModel C18.Chain C18.Kappa C18.Zbus.
 From mathcomp Require Import ssreflect ssrbool ssrnat eqtype fintype ssralg matrix.
 
 Section OverQ.
@@ -75,6 +75,80 @@ Print Assumptions C18_ext_grid_impedance.
 
 Example C18_nonvacuous : 0 < (1 # 2) /\ (1 # 2) <= 1 /\ (102 # 100) <= kappa_of (1 # 2).
 Proof. repeat split; vm_compute; discriminate. Qed.
+
+(* ---- the per-unit pipeline of a radial two-voltage-level chain  ext_grid - line - transformer (K_T) - line
+   (C18/ChainModel.v: rows of ppc["branch"], ext_grid shunt, TAP, makeYbus).  For ANY solution z of Ybus z = e_k (the Zbus
+   column the implementation reads the Thevenin impedance from, by inversion or LU) the reported rk_ohm + j xk_ohm =
+   BASE_KV^2/baseMVA * z_k is the series formula of the elements' IEC short-circuit impedances in ohm
+   (Zthev_ohm: Z_Q = c Un^2/S_sc with R = rx X; line R (with end temperature factor) + jX; K_T (u_kr + j u_kx) U_rT,lv^2/S_rT;
+   the hv part referred with (U_rT,lv/U_rT,hv)^2), which does not mention net.sn_mva. *)
+Theorem C18_chain_thevenin_ohm : forall (n : chain) (sn : Q) (o : oracles) (xk : Q),
+  chain_ok n -> 0 < sn -> oracle_ok n sn o xk ->
+  forall (vs : list C) (k : nat), (List.length vs = 4)%nat -> Nat.lt k 4 ->
+  Ceq_list (mat_vec (chain_ybus n sn o) vs) (unit_vec k 4) ->
+  to_ohm_c (List.nth k vs C0) (bus_vn n k) sn ==c Zthev_ohm n (o_sq o) xk k.
+Proof. exact chain_thevenin. Qed.
+Print Assumptions C18_chain_thevenin_ohm.
+
+(* results do not depend on net.sn_mva across the two voltage levels: two runs with different net.sn_mva, each with its own
+   square-root values and its own solve, report the same ohmic Thevenin impedance at every bus *)
+Theorem C18_chain_thevenin_sn_invariant : forall (n : chain) (sn1 sn2 : Q) (o1 o2 : oracles) (xk : Q) (vs1 vs2 : list C) (k : nat),
+  chain_ok n -> 0 < sn1 -> 0 < sn2 -> oracle_ok n sn1 o1 xk -> oracle_ok n sn2 o2 xk -> o_sq o1 == o_sq o2 ->
+  (List.length vs1 = 4)%nat -> (List.length vs2 = 4)%nat -> Nat.lt k 4 ->
+  Ceq_list (mat_vec (chain_ybus n sn1 o1) vs1) (unit_vec k 4) ->
+  Ceq_list (mat_vec (chain_ybus n sn2 o2) vs2) (unit_vec k 4) ->
+  to_ohm_c (List.nth k vs1 C0) (bus_vn n k) sn1 ==c to_ohm_c (List.nth k vs2 C0) (bus_vn n k) sn2.
+Proof. exact chain_thevenin_sn_invariant. Qed.
+Print Assumptions C18_chain_thevenin_sn_invariant.
+
+(* a concrete chain (110/20 kV) with exact square roots satisfies all hypotheses for sn_mva = 1 and 100, and its p.u. Zbus
+   entries differ between the two bases (the invariance is not trivial) *)
+Example C18_chain_nonvacuous :
+  chain_ok ex_chain /\ oracle_ok ex_chain 1 (ex_oracles 1) 4 /\ oracle_ok ex_chain 100 (ex_oracles 100) 4 /\
+  Ceq_list (mat_vec (chain_ybus ex_chain 1 (ex_oracles 1)) (ex_col 1)) (unit_vec 3 4) /\
+  Ceq_list (mat_vec (chain_ybus ex_chain 100 (ex_oracles 100)) (ex_col 100)) (unit_vec 3 4) /\
+  ~ List.nth 3 (ex_col 1) C0 ==c List.nth 3 (ex_col 100) C0.
+Proof. exact chain_nonvacuous. Qed.
+Print Assumptions C18_chain_nonvacuous.
+
+(* branch results: Kirchhoff's current law under the fault voltages V = c - ikss1 * Zbus[:, k] (any network, any size):
+   at the faulted bus the current leaving into branches and shunts is c * (row sum of Ybus) - ikss1, elsewhere c * (row sum) *)
+Theorem C18_kcl_fault_bus : forall row zcol c i, cdot row zcol ==c C1 ->
+  cdot row (v_ikss true c i zcol) ==c Csub (Cmul c (cdot row (ones zcol))) i.
+Proof. exact kcl_fault_bus. Qed.
+Print Assumptions C18_kcl_fault_bus.
+Theorem C18_kcl_other_bus : forall row zcol c i, cdot row zcol ==c C0 ->
+  cdot row (v_ikss true c i zcol) ==c Cmul c (cdot row (ones zcol)).
+Proof. exact kcl_other_bus. Qed.
+Print Assumptions C18_kcl_other_bus.
+(* res_line_sc of the chain: for a fault at the end bus the last line carries the whole fault current at its to end *)
+Theorem C18_chain_line2_current : forall (n : chain) (sn : Q) (o : oracles) (xk : Q),
+  chain_ok n -> 0 < sn -> oracle_ok n sn o xk ->
+  forall (vs : list C) (c i : C), (List.length vs = 4)%nat ->
+  Ceq_list (mat_vec (chain_ybus n sn o) vs) (unit_vec 3 4) ->
+  match v_ikss true c i vs with
+  | (_ :: _ :: vf :: vt :: nil)%list => branch_i_to (line_row (ch_l2 n) (ch_vlv n) sn) 1 vf vt ==c Copp i
+  | _ => False
+  end.
+Proof. exact chain_line2_current. Qed.
+Print Assumptions C18_chain_line2_current.
+
+(* single-phase fault: ikss = sqrt3 c Un / |2 Z1 + Z0| (Z in ohm), root-free form on the reported rk, xk, rk0, xk0, and
+   independence of net.sn_mva for equal ohmic impedance *)
+Theorem C18_ikss_1ph_formula : forall c zabs vn sn s3, 0 < zabs -> 0 < vn -> 0 < sn ->
+  ikss_1ph c zabs vn sn s3 * to_ohm zabs vn sn == s3 * c * vn.
+Proof. exact ikss_1ph_formula. Qed.
+Print Assumptions C18_ikss_1ph_formula.
+Theorem C18_ikss_1ph_formula_sq : forall c z1 z0 zabs vn sn s3, 0 < zabs -> 0 < vn -> 0 < sn -> s3 * s3 == 3 ->
+  zabs * zabs == cnorm2 (z_1ph z1 z0) ->
+  ikss_1ph c zabs vn sn s3 * ikss_1ph c zabs vn sn s3
+    * cnorm2 (Cadd (Cscale 2 (to_ohm_c z1 vn sn)) (to_ohm_c z0 vn sn)) == 3 * (c * c) * (vn * vn).
+Proof. exact ikss_1ph_formula_sq. Qed.
+Print Assumptions C18_ikss_1ph_formula_sq.
+Theorem C18_ikss_1ph_sn_invariant : forall c zohm vn sn1 sn2 s3, 0 < zohm -> 0 < vn -> 0 < sn1 -> 0 < sn2 ->
+  ikss_1ph c (zohm * sn1 / (vn * vn)) vn sn1 s3 == ikss_1ph c (zohm * sn2 / (vn * vn)) vn sn2 s3.
+Proof. exact ikss_1ph_sn_invariant. Qed.
+Print Assumptions C18_ikss_1ph_sn_invariant.
 End OverQ.
 
 (* over the reals: kappa = 1.02 + 0.98 exp(-3 R/X) is in [1.02, 2] for every R/X >= 0 (standard real axioms) *)
